@@ -662,7 +662,7 @@ def multi_part(check):
     g = Gen(rng)
     ts = [m_path("typeshare")]
     ncases = 60 if check.thorough else 12
-    mreqs, rreqs, meta = [], [], []
+    mreqs, rreqs, meta, allnames = [], [], [], set()
     for k in range(ncases):
         base = rng.choice(["Error", "Config", "Item", "State"])
         crates = rng.sample(["alpha", "beta", "gamma", "net", "storage"], rng.randint(2, 3))
@@ -679,12 +679,13 @@ def multi_part(check):
                  "fields": ("named", [field([], "one", t_path(base)), field([], "many", t_path("Vec", [t_path(base)])),
                                       field([], "maybe", t_path("Option", [t_path(base)]))])}]}
             jobs.append({"crate": c, "file_name": c + ".out", "path": "%s/src/lib.rs" % c, "file": f})
+            allnames |= l2.names_of(f)
         for lang in LANGS:
             m, r, texts = l2.requests(lang, cfg_of(lang, ""), jobs, g, multi_file=True)
             mreqs.append(m)
             rreqs.append(r)
             meta.append((lang, base, plan, texts))
-    mans = [l2.norm(a) for a in model(mreqs)]
+    mans = [l2.norm(a) for a in model(mreqs, names=allnames)]
     rans = [l2.norm(a) for a in runner(rreqs)]
     mismatch = None
     for (lang, base, plan, texts), ma, ra in zip(meta, mans, rans):
@@ -767,6 +768,55 @@ def go_acronym_part(check):
                         broken="correspondence L2 Go acronym pass (Go.convertAcronyms)")
 
 
+def variant_names_part(check):
+    """helper structs of struct variants whose identifiers are not fixed points of the case conversions the back ends apply
+    (all capitals, an underscore inside, a lower-case initial): the `<Enum><Variant>Inner` name must be spelled identically
+    where the helper is defined and where the variant's content refers to it"""
+    rng = check.rng
+    g = Gen(rng)
+    ts = [m_path("typeshare")]
+    pool = ["TCP", "OK", "Unix_Socket", "lowerCase", "Plain", "HTTPServer", "V2", "Id"]
+    defs_rx = {"kotlin": r"(?:data class|object) (\w+Inner)\b", "swift": r"public struct (\w+Inner)\b", "scala": r"(?:case class|class) (\w+Inner)\b",
+               "go": r"^type (\w+Inner) struct", "python": r"^class (\w+Inner)\("}
+    ncases = 60 if check.thorough else 12
+    mreqs, rreqs, meta, allnames = [], [], [], set()
+    for k in range(ncases):
+        vnames = rng.sample(pool, 3)
+        variants = [{"attrs": [], "ident": v, "fields": ("named", [field([], "x", t_path("u8")), field([], "y", t_path("String"))])} for v in vnames]
+        variants.append({"attrs": [], "ident": "Unit", "fields": ("unit",)})
+        f = {"attrs": [], "items": [{"kind": "enum", "attrs": list(ts) + [m_list("serde", [m_nv("tag", lit_s("t")), m_nv("content", lit_s("c"))])],
+                                     "ident": "Transport", "generics": [], "variants": variants}]}
+        for lang in LANGS:
+            pfx = rng.choice(["", "OP"]) if lang in ("kotlin", "swift") else ""
+            m, r, texts = l2.requests(lang, cfg_of(lang, pfx), [{"crate": "", "file_name": "out", "path": "src/lib.rs", "file": f}], g)
+            mreqs.append(m)
+            rreqs.append(r)
+            meta.append((lang, pfx, vnames, texts[0]))
+        allnames |= l2.names_of(f)
+    mans = [l2.norm(a) for a in model(mreqs, names=allnames)]
+    rans = [l2.norm(a) for a in runner(rreqs)]
+    mismatch = None
+    for (lang, pfx, vnames, text), ma, ra in zip(meta, mans, rans):
+        check.saw(("variant-names", lang, pfx, tuple(vnames)), nontrivial=True)
+        check.count("variant-name-programs-" + lang)
+        if "ok" in ra and lang in defs_rx:
+            out = ra["ok"][""]
+            defs = {x if isinstance(x, str) else next(y for y in x if y) for x in re.findall(defs_rx[lang], out, re.M)}
+            used = set(re.findall(r"\b(\w+Inner)\b", out))
+            undefined = sorted(u for u in used if u not in defs)
+            if undefined:
+                check.violation("%s refers to helper struct(s) %s, defined are %s" % (lang, undefined, sorted(defs)),
+                                case={"lang": lang, "prefix": pfx, "variants": vnames, "source": text}, impl=ra, model=ma, failing_input=True)
+                return
+        if ma != ra and mismatch is None:
+            mismatch = (lang, pfx, text, ma, ra)
+    if mismatch:
+        lang, pfx, text, ma, ra = mismatch
+        check.violation("%s generation differs from the model on struct variants with unusual identifiers" % lang,
+                        case={"lang": lang, "prefix": pfx, "source": text}, impl=ra, model=ma, failing_input=False,
+                        broken="correspondence L2 enum helper-struct names (theorems TsV.C09.tie_*)")
+
+
 def classes_of(c):
     return sorted(set().union(*c["expected"].values())) if c["expected"] else []
 
@@ -827,6 +877,8 @@ def run(check):
         multi_part(check)
     if not check.violations:
         go_acronym_part(check)
+    if not check.violations:
+        variant_names_part(check)
     check.assumptions += [
         "scope of the theorems: single-file mode, no type mappings / type overrides / decorators, Go without uppercase_acronyms, "
         "consts excluded (the property text does not list const types; their types are not reconciled at all)",
